@@ -403,17 +403,19 @@ class CFG:
             fc = None
         after_cont = fc if fc is not None else cont  # where handler bodies / else propagate
 
-        handler_entries: dict[int, int] = {}
+        handler_entries: dict = {}
         handler_ends: list = []
 
-        def handler_entry(i: int) -> int:
-            if i in handler_entries:
-                return handler_entries[i]
+        def handler_entry(i: int, caught: tuple) -> int:
+            """one copy of the handler body per caught kind, so that a bare ``raise`` re-raises exactly
+            what was caught"""
+            key = (i, caught)
+            if key in handler_entries:
+                return handler_entries[key]
             h = s.handlers[i]
-            classes = self._handler_classes(h)
-            nid = self._new("handler", h, h, A.head(h), cont.copy)
-            handler_entries[i] = nid
-            hc = after_cont.replace(handler=(h.name, tuple(classes)))
+            nid = self._new("handler", h, h, A.head(h) + (f" [{','.join(caught)}]" if len(s.handlers) and caught else ""), cont.copy)
+            handler_entries[key] = nid
+            hc = after_cont.replace(handler=(h.name, tuple(caught)))
             ends = self._seq(h.body, [(nid, "n")], hc)
             handler_ends.extend(ends)
             return nid
@@ -421,9 +423,9 @@ class CFG:
         def dispatch(kind: str):
             targets = []
             for i, h in enumerate(s.handlers):
-                m, _ref = hier.match(kind, self._handler_classes(h))
+                m, ref = hier.match(kind, self._handler_classes(h))
                 if m != "no":
-                    targets.append(handler_entry(i))
+                    targets.append(handler_entry(i, tuple(ref)))
                 if m == "yes":
                     return targets
             return targets + after_cont.exc(kind)
